@@ -40,6 +40,15 @@ def affine(rng, n):
         yield {"yaml": specgen.yaml_of(es["decl"], [es["expr"]], mp), "syms": syms, "kind": "affine", "es": es, "mapping": mp}
 
 
+def affine_rich(rng, n):
+    """index math with further operands (one holding Q or S directly, a second tensor through the same affine access,
+    sums of convolutions), mostly shape-partitioned: several fibers co-iterated at the partition-level loops"""
+    for _ in range(n):
+        es = specgen.gen_affine_einsum(rng, extra_p=0.6, same_p=0.15, sum_p=0.1)
+        mp, kind, syms = specgen.affine_mapping(rng, es, part_p=0.85)
+        yield {"yaml": specgen.yaml_of(es["decl"], [es["expr"]], mp), "syms": syms, "kind": "affine-rich", "es": es, "mapping": mp}
+
+
 def affine_occ(rng, n):
     """index math with an occupancy-partitioned filter rank"""
     for _ in range(n):
